@@ -62,6 +62,30 @@ REVIEWED = {
     ('_dbus_user_database_get_system', 'init_system_db'): 'a NULL database is returned when initialisation failed',
 }
 
+# the file each reviewed caller lives in: a reviewed site keeps its exemption when the statement moves to
+# another function of the same file (helper extracted / inlined)
+REVIEWED_FILE = {'new_connection_callback': 'bus/bus.c',
+                 'bus_connection_disconnected': 'bus/connection.c',
+                 'cache_peer_loginfo_string': 'bus/connection.c',
+                 'bus_matchmaker_get_recipients': 'bus/signals.c',
+                 'send_no_return_values': 'dbus/dbus-bus.c',
+                 '_dbus_connection_remove_watch_unlocked': 'dbus/dbus-connection.c',
+                 '_dbus_connection_toggle_watch_unlocked': 'dbus/dbus-connection.c',
+                 '_dbus_connection_remove_timeout_unlocked': 'dbus/dbus-connection.c',
+                 '_dbus_server_remove_watch': 'dbus/dbus-server.c',
+                 '_dbus_loop_add_watch': 'dbus/dbus-mainloop.c',
+                 'load_and_validate_field': 'dbus/dbus-marshal-header.c',
+                 'reader_set_basic_fixed_length': 'dbus/dbus-marshal-recursive.c',
+                 'dbus_set_error_from_message': 'dbus/dbus-message.c',
+                 'copy_address_with_guid_appended': 'dbus/dbus-server.c',
+                 'dbus_server_get_id': 'dbus/dbus-server.c',
+                 '_dbus_string_shorten': 'dbus/dbus-string.c',
+                 '_dbus_read_local_machine_uuid': 'dbus/dbus-sysdeps-unix.c',
+                 '_dbus_timeout_list_free': 'dbus/dbus-timeout.c',
+                 '_dbus_watch_list_free': 'dbus/dbus-watch.c',
+                 'socket_do_iteration': 'dbus/dbus-transport-socket.c',
+                 '_dbus_user_database_get_system': 'dbus/dbus-userdb.c'}
+
 _anchors = None
 
 
@@ -140,6 +164,8 @@ def error_discipline(ck, prog):
                 r.ok(key, {'exempt': IGNORABLE[cal]})
             elif (f.name, cal) in REVIEWED:
                 r.ok(key, {'reviewed': REVIEWED[(f.name, cal)]})
+            elif any(c2 == cal and REVIEWED_FILE.get(f2) == f.file for (f2, c2) in REVIEWED):
+                r.ok(key, {'reviewed': 'same file and callee as a reviewed site'})
             else:
                 r.violation(key, f.name, f.file, c['line'],
                             'the result of %s is dropped in %s: when it fails the operation carries on as if it '
